@@ -62,6 +62,15 @@ def const_int(t):
     return None
 
 
+def _lab(t, name):
+    try:
+        if getattr(t, '_label', None) is None:
+            t._label = name
+    except Exception:
+        pass
+    return t
+
+
 class Evaluator:
     """Mixin of Engine: expression evaluation."""
 
@@ -181,6 +190,9 @@ class Evaluator:
         c = const_int(idx)
         if c is not None:
             i = I(c) if c >= 0 else n + c
+        elif st.spec:
+            # contract language: x[e] with a non-constant e is the element at POSITION e (no wrap-around; constants like -1 do count from the end)
+            i = idx
         elif st.entails(idx >= 0):
             i = idx
         elif st.entails(idx < 0):
@@ -326,10 +338,10 @@ class Evaluator:
             return st.heap.alloc_list(None, z3.IntVal(0), [])
         res, rl = st.heap.fresh_list(cell.etype, 'sl')
         rc = st.heap.lists[res.ref]
-        st.assume(rl == ln)
+        st.assume(_lab(rl == ln, 'theory:slice'))
         k = z3.Int(fresh_name('k'))
         if rc.leaves:
-            st.assume(z3.ForAll([k], z3.Implies(z3.And(k >= 0, k < ln), z3.And([r[k] == x[a + k] for r, x in zip(rc.leaves, cell.leaves)]))))
+            st.assume(_lab(z3.ForAll([k], z3.Implies(z3.And(k >= 0, k < ln), z3.And([r[k] == x[a + k] for r, x in zip(rc.leaves, cell.leaves)]))), 'theory:slice'))
         # small concrete-length slices get ground facts too (helps `i0, i1 = bounds[c:c+2]`)
         for j in range(0, 3):
             st.assume(z3.Implies(ln > j, z3.And([r[j] == x[a + j] for r, x in zip(rc.leaves, cell.leaves)]) if rc.leaves else z3.BoolVal(True)))
@@ -692,7 +704,14 @@ class Evaluator:
             if isinstance(sl, VSlice):
                 return self.list_slice(base, sl, st, node)
             if isinstance(sl, VList):
+                mark_ = len(st.pc)
                 h = self.nd_subscript(base, sl, st, node)
+                for t_ in st.pc[mark_:]:
+                    if getattr(t_, '_label', None) is None:
+                        try:
+                            t_._label = 'theory:index'
+                        except Exception:
+                            pass
                 if h is not None:
                     return h
                 raise Unsupported('index array on %r (line %s)' % (base, getattr(node, 'lineno', '?')))
@@ -869,7 +888,69 @@ class Evaluator:
             return VBool(z3.ForAll(bound, z3.Implies(g, body)))
         return VBool(z3.Exists(bound, z3.And(g, body)))
 
+    def ev_Dict(self, node, st):
+        if not node.keys:
+            # {}: an empty int -> array dictionary (the only dict literal the engine models)
+            keys = st.heap.alloc_list('int', z3.IntVal(0), [z3.K(z3.IntSort(), z3.IntVal(0))])
+            rv, cnt, lens = st.heap.fresh_rag('int', 'dict')
+            st.assume(cnt == 0)
+            return VAssoc(keys, rv)
+        raise Unsupported('dict literal with entries')
+
+    def assoc_comp(self, node, st):
+        """{K(i): A[lo(i):hi(i)] for i in range(n)} with integer keys and slices of one 1-D array as values"""
+        comp = node.generators[0]
+        it = self.ev(comp.iter, st)
+        if not (isinstance(it, VRange) and const_int(it.step) == 1 and const_int(it.start) == 0 and isinstance(comp.target, ast.Name) and not comp.ifs):
+            return None
+        v = node.value
+        if not (isinstance(v, ast.Subscript) and isinstance(v.slice, ast.Slice) and v.slice.step is None):
+            return None
+        src = self.ev(v.value, st)
+        if not (isinstance(src, VList) and st.heap.lists[src.ref].etype in ('int', 'real')):
+            return None
+        cell = st.heap.lists[src.ref]
+        n = zmax(it.stop, I(0))
+        i = z3.Int(fresh_name('di'))
+        saved = dict(st.env)
+        st.pc.append(z3.And(i >= 0, i < n))
+        gpos = len(st.pc) - 1
+        try:
+            st.nofork += 1
+            try:
+                st.env[comp.target.id] = VInt(i)
+                key_i = as_int(self.ev(node.key, st))     # index obligations inside are generated for the symbolic position i
+                lo_i = as_int(self.ev(v.slice.lower, st)) if v.slice.lower is not None else I(0)
+                hi_i = as_int(self.ev(v.slice.upper, st)) if v.slice.upper is not None else cell.length
+            finally:
+                st.nofork -= 1
+        finally:
+            del st.pc[gpos]
+            st.env = saved
+        N = cell.length
+
+        def clipb(t):
+            t2 = z3.If(t < 0, t + N, t)
+            return zmin(zmax(t2, I(0)), N)
+        a_i, b_i = clipb(lo_i), clipb(hi_i)
+        keys, kn = st.heap.fresh_list('int', 'dict.keys')
+        K = st.heap.lists[keys.ref].leaves[0]
+        rv, cnt, lens = st.heap.fresh_rag(cell.etype, 'dict')
+        data = st.heap.rags[rv.ref].data
+        j, i2 = z3.Int(fresh_name('dj')), z3.Int(fresh_name('di'))
+        st.assume(_lab(z3.And(kn == n, cnt == n), 'theory:dictcomp'))
+        st.assume(_lab(z3.ForAll([i], z3.Implies(z3.And(i >= 0, i < n), z3.And(K[i] == key_i, lens[i] == zmax(b_i - a_i, I(0))))), 'theory:dictcomp'))
+        st.assume(_lab(z3.ForAll([i, j], z3.Implies(z3.And(i >= 0, i < n, j >= 0, j < zmax(b_i - a_i, I(0))), data[i][j] == cell.leaves[0][a_i + j])), 'theory:dictcomp'))
+        # the dict model needs pairwise distinct keys (Python would silently keep the last value of a repeated key)
+        self.oblige(st, 'model', 'dict-comprehension-keys-distinct',
+                    z3.ForAll([i, i2], z3.Implies(z3.And(i >= 0, i < i2, i2 < n), key_i != z3.substitute(key_i, (i, i2)))), node)
+        return VAssoc(VList(keys.ref), rv)
+
     def ev_DictComp(self, node, st):
+        if len(node.generators) == 1:
+            r = self.assoc_comp(node, st)
+            if r is not None:
+                return r
         """{key: [] for key in range(N)}: an int-keyed dict of (initially empty) lists = a list of N empty arrays"""
         if len(node.generators) == 1 and not node.generators[0].ifs and isinstance(node.value, ast.List) and not node.value.elts \
                 and isinstance(node.key, ast.Name) and isinstance(node.generators[0].target, ast.Name) and node.key.id == node.generators[0].target.id:
